@@ -11,7 +11,9 @@ package gff
 //                                            bases start..end (1-based inclusive)
 //                                            of the file's sequence
 //   io/gff.Parse/post/independent-writer     the same for GFF3 text laid out by
-//                                            an independent writer (c14Write)
+//                                            an independent writer (c14Write),
+//                                            including texts with the ### directive
+//                                            between feature lines
 //
 // The oracle is the document description (c14Doc) the input was generated from.
 
@@ -165,20 +167,30 @@ func c14ToSequence(d c14Doc, version string) poly.Sequence {
 	return s
 }
 
-// c14Write is the independent GFF3 writer.
-func c14Write(rng *rand.Rand, d c14Doc, width int, closeFeatures bool) []byte {
+// c14Write is the independent GFF3 writer. groupEnd (nil, or one flag per
+// feature) says after which feature lines the writer emits the "###" directive
+// ("all forward references resolved", GFF3 specification: it may follow any
+// feature group, not only the last one); closeFeatures adds one before ##FASTA.
+func c14Write(rng *rand.Rand, d c14Doc, width int, closeFeatures bool, groupEnd []bool) []byte {
 	var b bytes.Buffer
 	b.WriteString("##gff-version 3\n")
 	b.WriteString("##sequence-region " + d.name + " " + strconv.Itoa(d.regionStart) + " " + strconv.Itoa(d.regionEnd) + "\n")
-	for _, f := range d.feats {
+	closed := false
+	for i, f := range d.feats {
 		var at []string
 		for _, kv := range f.attrs {
 			at = append(at, kv[0]+"="+kv[1])
 		}
 		cols := []string{f.seqid, f.source, f.typ, strconv.Itoa(f.start), strconv.Itoa(f.end), f.score, f.strand, f.phase, strings.Join(at, ";")}
 		b.WriteString(strings.Join(cols, "\t") + "\n")
+		if groupEnd != nil && groupEnd[i] {
+			b.WriteString("###\n")
+			closed = true
+		} else {
+			closed = false
+		}
 	}
-	if closeFeatures {
+	if closeFeatures && !closed {
 		b.WriteString("###\n")
 	}
 	b.WriteString("##FASTA\n")
@@ -351,14 +363,21 @@ func TestVerifC14(t *testing.T) {
 	featText := "0..30 features (every count occurs; count = case index mod 31, plus seeded random counts), each with 1..6 attributes with distinct keys, 1 <= start <= end <= length including first base, last base and whole sequence; " +
 		"seqid and region name 1..12 characters of the GFF3 seqid alphabet; source/type/score/strand/phase/attribute text non-empty, free of tab, newline, ';', '=' (attribute values occasionally empty); letters ACGT or IUPAC"
 
+	dirText := "documents of 2..30 features (count = 2 + case index mod 29) in which the writer emits the GFF3 directive ### (forward references resolved) between feature lines: after every feature, after every group of 1..3 features, once after the first feature, or once before the last feature, with or without a further ### before ##FASTA; all features before and after each ### must be returned, in order, with their fields and sequences; "
+	if thorough {
+		dirText += "one such document for every length of the list above"
+	} else {
+		dirText += "one such document for every third length 1..700"
+	}
 	rt := newVerifRun("C14", "io/gff.Build-Parse/post/roundtrip",
 		"Parse(Build(x)) (every 7th case through Write/Read on a temp file) compared with x on region name and bounds, sequence, feature count and order, and each feature's seqid, source, type, score, strand, phase, attributes, location: "+
 			lenText+"; "+featText+"; Meta set as Parse sets it (Name, RegionStart=1, RegionEnd=length; GffVersion \"\" or \"3\"); separate cases (classes prefixed region-not-sequence-length) with 1 <= RegionStart <= RegionEnd unrelated to the length; non-trivial = every case")
 	co := newVerifRun("C14", "io/gff.Parse/post/coordinates",
-		"one case per feature of every document of the other two clauses (including the independent writer's texts without a final newline, classes prefixed no-final-newline) that Parse returned (documents on which Parse panics are counted there, not here): GetSequence() == sequence[start-1:end] for the file's 1-based inclusive start..end, computed from the generated description")
+		"one case per feature of every document of the other two clauses (including the independent writer's texts without a final newline, classes prefixed no-final-newline, and its texts with ### lines between features, classes prefixed resolved-directive-between-features) that Parse returned (documents on which Parse panics are counted there, not here): GetSequence() == sequence[start-1:end] for the file's 1-based inclusive start..end, computed from the generated description")
 	iw := newVerifRun("C14", "io/gff.Parse/post/independent-writer",
 		"Parse on GFF3 text from an independent writer (##gff-version 3, ##sequence-region name 1 length, 9 tab-separated columns, attributes k=v joined by ';' in arbitrary key order, optional ### line, ##FASTA, >name, sequence lines of width 70, 60, 61, 35 or 10 with a short last line): "+
-			lenText+"; "+featText+"; every document twice: with a newline after the last sequence line, and with the file ending right after the last sequence letter (classes prefixed no-final-newline; every 7th through Read on a temp file); non-trivial = every case")
+			lenText+"; "+featText+"; every document twice: with a newline after the last sequence line, and with the file ending right after the last sequence letter (classes prefixed no-final-newline; every 7th through Read on a temp file); "+
+			"in addition (classes prefixed resolved-directive-between-features) "+dirText+"; non-trivial = every case")
 	rt.Sampled()
 	co.Sampled()
 	iw.Sampled()
@@ -406,7 +425,7 @@ func TestVerifC14(t *testing.T) {
 
 		// independent writer
 		width := []int{70, 70, 60, 61, 35, 10}[rng.Intn(6)]
-		itext := c14Write(rng, d, width, rng.Intn(2) == 0)
+		itext := c14Write(rng, d, width, rng.Intn(2) == 0, nil)
 		iw.Case(fmt.Sprintf("len=%d feats=%d idx=%d width=%d", l, nFeat, idx, width), true)
 		how := "independent writer, width " + strconv.Itoa(width)
 		if idx%7 == 5 {
@@ -432,6 +451,58 @@ func TestVerifC14(t *testing.T) {
 			c14Check(c14Runs{iw, co}, d, ntext, how+", Read", "no-final-newline", func([]byte) poly.Sequence { return Read(p) })
 		} else {
 			c14Check(c14Runs{iw, co}, d, ntext, how, "no-final-newline", Parse)
+		}
+	}
+	// the "###" directive between features: a writer that closes every gene
+	// group (or every feature) as soon as its forward references are resolved.
+	// Every feature line, before and after a "###", must still be parsed.
+	// Separate loop and generator stream so that the cases above are unchanged.
+	for idx, l := range lengths {
+		nFeat := 2 + idx%29
+		rng := rand.New(rand.NewSource(seed*1000003 + int64(idx) + 0x1400000000))
+		if l > 700 && !thorough {
+			continue // the long lengths add nothing to this axis
+		}
+		if !thorough && idx%3 != 0 {
+			continue
+		}
+		d := c14NewDoc(rng, l, nFeat)
+		groupEnd := make([]bool, nFeat)
+		var layout string
+		switch (idx / 3) % 4 {
+		case 0:
+			layout = "### after every feature"
+			for i := range groupEnd {
+				groupEnd[i] = true
+			}
+		case 1:
+			layout = "### after every group of 1..3 features"
+			for i := 0; i < nFeat; {
+				i += 1 + rng.Intn(3)
+				if i > nFeat {
+					i = nFeat
+				}
+				groupEnd[i-1] = true
+			}
+		case 2:
+			layout = "a single ### after the first feature"
+			groupEnd[0] = true
+		default:
+			layout = "a single ### before the last feature"
+			groupEnd[nFeat-2] = true
+		}
+		width := []int{70, 70, 60, 61, 35, 10}[rng.Intn(6)]
+		gtext := c14Write(rng, d, width, rng.Intn(2) == 0, groupEnd)
+		iw.Case(fmt.Sprintf("len=%d feats=%d idx=%d width=%d %s", l, nFeat, idx, width, layout), true)
+		how := "independent writer, width " + strconv.Itoa(width) + ", " + layout
+		if (idx/3)%7 == 4 {
+			p := filepath.Join(dir, "iwg-"+strconv.Itoa(idx)+".gff")
+			if err := ioutil.WriteFile(p, gtext, 0644); err != nil {
+				t.Fatal(err)
+			}
+			c14Check(c14Runs{iw, co}, d, gtext, how+", Read", "resolved-directive-between-features", func([]byte) poly.Sequence { return Read(p) })
+		} else {
+			c14Check(c14Runs{iw, co}, d, gtext, how, "resolved-directive-between-features", Parse)
 		}
 	}
 	rt.Done()
